@@ -887,7 +887,11 @@ func w7MatchRead(sc *w7Script, ref *w7Ref, nc *w7Conn, res *w7ReadRes) w7Verdict
 		}
 	}
 	if hit == "" {
-		if sc.ReadAPI == 2 && classes["toobig"] {
+		// only a stream that is a valid prefix justifies "no message exceeds the limit";
+		// when the reference stopped at a violation the reader walked past (e.g. the known
+		// RSV1-on-control-frame acceptance) a later over-limit message is legitimately
+		// refused and the mismatch is attributed to that violation below
+		if sc.ReadAPI == 2 && classes["toobig"] && t.Kind == "more" {
 			return spuriousLimit()
 		}
 		if faulted && classes["io"] {
@@ -1052,7 +1056,24 @@ func w7CheckRead(s *simrt.Sim, w *w7World, sc *w7Script, nc *w7Conn, c *Conn, re
 			j++
 		}
 		if j == len(pings) {
-			s.Violate("C29", "control", "pong that answers no received ping", "pong payload %s; pings so far %d", w7Short(pg), len(pings))
+			// a pong for a ping that the script places AFTER the frame at which the reference
+			// stopped with a violation means that the reader walked past that violation (its
+			// error class was accepted above as a legitimate in-message alternative, so the
+			// mismatch is only visible here): attribute it to the violation, e.g. the known
+			// acceptance of RSV1 on a continuation frame (seed 2 run 195465)
+			later := false
+			if k := ref.Term.Kind; k == "proto" || k == "inflate" || k == "toobig" {
+				for i := range sc.Frames {
+					if sc.Frames[i].Op == 9 && bytes.Equal(sc.Frames[i].payload(), pg) {
+						later = true
+					}
+				}
+			}
+			if later {
+				s.Violate("C29", "reject-"+ref.Term.Kind, ref.Term.Kind+"["+ref.Term.Reason+"] not rejected: a ping after the offending frame was answered", "reference decoder stops with %s at stream offset %d; pong payload %s answers a ping behind it", ref.Term, ref.Term.Off, w7Short(pg))
+			} else {
+				s.Violate("C29", "control", "pong that answers no received ping", "pong payload %s; pings so far %d", w7Short(pg), len(pings))
+			}
 			break
 		}
 		j++
@@ -1061,6 +1082,15 @@ func w7CheckRead(s *simrt.Sim, w *w7World, sc *w7Script, nc *w7Conn, c *Conn, re
 		// a streaming reader that stopped inside an incomplete message for an accepted
 		// alternative reason may not have seen the later pings
 		early := ref.Term.Kind != v.clause && !(ref.Term.Kind == "more" && v.clause == "io")
+		if ref.Term.InMsg && ref.Term.Alts[v.clause] {
+			// the same class of condition (e.g. "toobig": the inflated prefix of the message
+			// already exceeds the decompressed limit) may legitimately have stopped a
+			// streaming reader earlier inside the message than the frame in which the
+			// reference places its terminal condition (compressed size limit): pings
+			// interleaved in that message are not certain to have been read (false alarm
+			// seed 1 run 97048, known_replays/falsealarm-C29-ping-inside-message-ended-by-size-limit.json)
+			early = true
+		}
 		must := pings
 		if (early || ref.Term.Content) && ref.Term.InMsg {
 			// only pings that precede the message in which the condition arose are certain
